@@ -132,7 +132,7 @@ def run_rendezvous(desc):
     want = [1 + k for k in range(len(ys))]
     if any(e is not None for e in excs):
         n_in = len(entered)
-        bad = (f"{T} runs of one Plan object{' with a registry' if with_reg else ''} whose calls wait for each other: only {n_in} of {T} runs ever reached their first call within 30 s "
+        bad = (f"{T} runs of one Plan object{' with a registry' if with_reg else ''} whose calls wait for each other: a call waited 30 s for its counterpart in another run ({n_in} of {T} runs reached their first call at all) "
                f"(the runs do not overlap); raised {[repr(e)[:70] for e in excs if e is not None][:1]}")
     elif any(r != want for r in results):
         bad = f"concurrent runs returned {results}, expected {want} each"
